@@ -8,6 +8,21 @@ ALL = [f'C{i:02d}' for i in range(1, 21)]
 
 # property -> (level text, level note, technique, design section)
 CHECKS = {
+    'C15': (
+        'Lean 4 theorems for every unit q > 0 and every integer vector (every rational multiple of pi/4): the normalisation of KAK interaction coefficients '
+        '(kak_canonicalize_vector: canonical shifts in closed form, three conditional swaps, two conditional double negations, the final shift of z and the boundary '
+        'fix) returns coefficients with 0 <= |z| <= y <= x <= pi/4 and z >= 0 when x = pi/4 (C15_canonicalize_canonical), reaches them by symmetry moves only — shifts by '
+        'multiples of pi/2, double negations, swaps (C15_canonicalize_move), leaves canonical vectors unchanged (C15_canonical_fixed) and is idempotent '
+        '(C15_canonicalize_idempotent); lemmas cshift_range / cshift_congr / sort3_spec. T2: cirq.kak_canonicalize_vector on all small integer vectors (all chamber '
+        'boundaries) against the model and its local-gate identity; kak_decomposition / kak_vector / kron factoring / single-qubit angle, axis-angle, Pauli-rotation, '
+        'PhasedXZ forms / map_eigenvalues; synthesis into <= 3 CZ (partial or not), sqrt-iSWAP (required counts), 4 FSim, MS, Sycamore; two-qubit state preparation; '
+        'three-qubit and Shannon synthesis; multi-controlled rotations; Clifford-tableau synthesis — products of returned operations computed by the Lean reference '
+        'interpreter and compared with the input, with gate counts and gate kinds.',
+        'Trusted: Lean kernel; harness + drivers; the model is exact arithmetic (atol = 0) on rational multiples of pi/4, real inputs are reached by density; numpy '
+        'linear algebra for reference matrices; all routines other than the coefficient normalisation are T2 only (floating-point linear algebra is not modelled).',
+        'Lean 4 proof (case analysis + linear integer arithmetic over all inputs) + differential correspondence and reconstruction checks',
+        'DESIGN.md §3 C15',
+    ),
     'C11': (
         'Lean 4 theorem for every value tree: the shared-object mechanism of the JSON format (VAL / REF markers: the key of a SerializableByKey object is taken '
         'before its contents are written, equal objects met later become references, the reader registers a value when its JSON object closes) round-trips — '
